@@ -12,7 +12,8 @@
 
    PROOF: compile_program_correct_F7 (below, closed) — whole programs of `Compile4.prog_in_P 7` = level 6 of
    Properties_C02c.v (closures, copies of function objects, assignment to int vars, catch clauses, tail calls)
-   + array literals `[e1, …, en] : int` (n >= 1, every element `int_shaped`) wherever an expression may stand
+   + array literals `[e1, …, en] : int` (n >= 1, every element `int_shaped` or the name of an int var in scope,
+   whose cell the array then shares: Compile4.elem_ok) wherever an expression may stand
    (bound by let / var, passed, captured, returned from blocks), index reads `a[i]` for any expressions a, i of
    the fragment, element assignment `a[i] = e` (e `int_shaped`).  index_out_of_bounds (i < 0 or i >= n) reaches
    the catch clauses / the caller / OUnhandled exactly as the evaluator says: the simulation statements
@@ -25,7 +26,7 @@
 
    Not modelled / not in the fragment: a nil array reference (nil_pointer in the real machine: ARRAYREF_DEREF on
    a cell that is not an array is stuck in ValueVM4; a nil array cannot be written in the fragment), array
-   elements that are not int_shaped (`[x]` shares x's cell: tied, not proved), more than one dimension,
+   elements that are neither int_shaped nor an int var (tied, not proved), more than one dimension,
    MK_ARRAY_* (arrays given by their size), slices, ranges, for-in, ARRAY_APPEND.  At an index fault the real
    machine has popped the index (and, for a too large index, the array reference); ValueVM4 keeps the reference
    on the stack: what lies above the frame base when an exception is dispatched is never read. *)
